@@ -332,6 +332,7 @@ class Family:
 	apply(lines, site, rng)    -> (new lines, expectation) with expectation = dict(group, lineno=None|int, kind=None|substring, absent=False)
 	"""
 	name = ''
+	current_relpath = None
 
 	def candidates(self, lines, relpath):
 		raise NotImplementedError
@@ -490,7 +491,32 @@ class IncludeSwap(Family):
 	def apply(self, lines, site, rng):
 		new_lines = list(lines)
 		new_lines[site], new_lines[site + 1] = lines[site + 1], lines[site]
-		return new_lines, {'group': 'includesOrder', 'lineno': None, 'kind': None}
+		return new_lines, {
+			'group': 'includesOrder', 'lineno': None, 'kind': None, 'seeded_line': f'{lines[site + 1]} <-> {lines[site]}',
+			'classes': self.site_classes(lines, site, self.current_relpath or '')}
+
+	@staticmethod
+	def include_class(line, is_first_of_cpp):
+		"""Class of an include line for the comparison: which stage of the comparator decides about it."""
+		include = re.match(r'#include (["<][^">]*[">])', line).group(1)
+		if is_first_of_cpp:
+			return 'own-header'
+		body = include[1:-1]
+		parts = body.split('/')
+		if include.startswith('"'):
+			if 1 == len(parts):
+				return 'local:same-directory'
+			if 'tests' in parts or 'test' in parts:
+				return 'local:tests'
+			return 'local:catapult' if 'catapult' == parts[0] else 'local:other-directory'
+		kind = 'c-header' if body.endswith('.h') else 'c++-header'
+		return f'system:dir/{kind}' if len(parts) > 1 else f'system:{kind}'
+
+	def site_classes(self, lines, site, relpath):
+		"""The class pair of the two neighbouring includes that are swapped (own stratification instead of the line contexts)."""
+		first_include = next((index for index, line in enumerate(lines) if line.startswith('#include')), None)
+		own = relpath.endswith('.cpp') and site == first_include
+		return [f'{self.include_class(lines[site], own)} | {self.include_class(lines[site + 1], False)}']
 
 
 class FirstInclude(Family):
@@ -1046,6 +1072,7 @@ CONTEXT_LABELS = (
 	'self:directive', 'self:comment', 'self:empty', 'self:backslash', 'next:empty', 'next:directive', 'next:close-brace',
 	'in:macro', 'in:region', 'in:block-comment', 'in:indented-block', 'pos:licence', 'pos:first-lines', 'pos:last-lines', 'plain')
 # for these families the few sites of these classes are always all exercised
+RARE_CLASS_SITES = 40  # a family-specific class (e.g. a pair of include classes) with at most this many sites in the tree is exercised in full
 ALWAYS_ALL = {'blank-lines:consecutive': ('prev:backslash', 'in:macro'), 'whitespace:tabs-in-empty-line': ('prev:backslash',)}
 
 
@@ -1155,14 +1182,16 @@ def context_sites(relpath):
 		if contexts is None:
 			contexts = line_contexts(lines)
 		per_label = {}
+		family = _W['catalogue'][members[0]]
+		own_classes = getattr(family, 'site_classes', None)
 		for site in sites:
 			if not isinstance(site, int) or site >= len(contexts):
 				continue
-			for label in contexts[site]:
+			for label in (own_classes(lines, site, relpath) if own_classes else contexts[site]):
 				per_label.setdefault(label, []).append(site)
 		keep = {}
 		for label, found in per_label.items():
-			if label in ALWAYS_ALL.get(name, ()):
+			if label in ALWAYS_ALL.get(name, ()) or own_classes:
 				keep[label] = (len(found), found)
 			else:
 				keep[label] = (len(found), [found[0], found[len(found) // 2]] if len(found) > 1 else found)
@@ -1186,8 +1215,8 @@ def plan_stratified(ctx, catalogue, per_file):
 	cases = []
 	exercised = {}
 	for (name, label), pool in sorted(pools.items()):
-		if label in ALWAYS_ALL.get(name, ()):
-			chosen = pool
+		if label in ALWAYS_ALL.get(name, ()) or (' | ' in label and len(pool) <= RARE_CLASS_SITES):
+			chosen = pool  # few sites in the whole tree: all of them
 		else:
 			chosen = rng.sample(pool, min(len(pool), ctx.scale(1, 3)))
 		for relpath, site in chosen:
